@@ -108,8 +108,9 @@ class Harness:
         Homed = type('Homed', (Core.Agent,), {})
         Homed.add_class_component(Envs.PositionComponent(Homed, w.model, 1, 1, 1))
         Homed.add_class_component(X(Homed, w.model))
-        for key, aid, types in self.agents + [('probe', 'probe', ('X',))]:
-            owner = w.m2 if key in FOREIGN else w.model
+        for key, aid, types in self.agents + [('probe', 'probe', ('X',)), ('ghost', 'ghost', ())]:
+            # ghost: an agent built without a model (Agent(id, None)); it never joins: it is only offered where it is refused
+            owner = None if key == 'ghost' else w.m2 if key in FOREIGN else w.model
             a = (Homed if key == 'a2' else Core.Agent)(self.R(aid), owner)
             for T in types:
                 if T == 'PC':
@@ -139,7 +140,9 @@ class Harness:
         # component), positions, component listings
         names = {id(a): k for k, a in w.agents.items()}
         names.update({id(c): f'comp{i}' for i, c in enumerate(w.comps)})
-        return public_snapshot(w.model, [w.agents[k] for k in self.keys + ['probe']], names)
+        ghost = w.agents['ghost']
+        return (public_snapshot(w.model, [w.agents[k] for k in self.keys + ['probe', 'ghost']], names),
+                ('ghost.model', ghost.model is None))
 
     def _resident_ids(self, w):
         return {self.idof[k]: k for k in w.ref}
@@ -304,7 +307,7 @@ class Harness:
                     continue
                 args_p = p[:narg]
                 # a non-resident pool agent and the never-joining probe are both tried
-                victims = ['probe'] + [k for k in self.keys if self.idof[k] not in res][:1]
+                victims = ['probe', 'ghost'] + [k for k in self.keys if self.idof[k] not in res][:1]
                 for k in victims:
                     self._rejected(w, lambda k=k, a=args_p: env.add_agent(w.agents[k], *a), Exception,
                                    f'placement of {k} at {p} outside world {dims}')
